@@ -25,40 +25,60 @@ type c14World struct {
 // mkClone builds a fresh copy of the world and drives every object into its initial state.
 func (w *c14World) mkClone() []*Obj {
 	out := make([]*Obj, len(w.descs))
-	for i, d := range w.descs {
-		switch w.state[i] {
-		case stNever:
-			out[i] = buildObj(d, len(d.Shapes))
-		case stBuilt:
-			out[i] = buildObj(d, len(d.Shapes))
-			if ix := out[i].index(); ix != nil {
-				ix.Build()
+	// loops and polygons first (in their final initial state), then the indexes, which may hold
+	// some of those very objects as shapes
+	for pass := 0; pass < 2; pass++ {
+		for i, d := range w.descs {
+			if (d.Kind == OIndex) != (pass == 1) {
+				continue
 			}
-		case stStale:
-			switch d.Kind {
-			case OLoop:
-				out[i] = buildObj(d, 1)
+			switch w.state[i] {
+			case stNever:
+				out[i] = buildObjIn(d, len(d.Shapes), out)
+			case stBuilt:
+				out[i] = buildObjIn(d, len(d.Shapes), out)
 				if ix := out[i].index(); ix != nil {
 					ix.Build()
 				}
-				out[i].Loop.Invert()
-			case OPolygon:
-				out[i] = buildObj(d, 1)
-				if ix := out[i].index(); ix != nil {
-					ix.Build()
-				}
-				out[i].Poly.Invert()
-				setMaxEdgesPerCell(out[i].index(), d.MaxEdges)
-			default:
-				out[i] = buildObj(d, w.split[i])
-				out[i].Index.Build()
-				for j := w.split[i]; j < len(d.Shapes); j++ {
-					out[i].addShape(j)
+			case stStale:
+				switch d.Kind {
+				case OLoop:
+					out[i] = buildObjIn(d, 1, out)
+					if ix := out[i].index(); ix != nil {
+						ix.Build()
+					}
+					out[i].Loop.Invert()
+				case OPolygon:
+					out[i] = buildObjIn(d, 1, out)
+					if ix := out[i].index(); ix != nil {
+						ix.Build()
+					}
+					out[i].Poly.Invert()
+					setMaxEdgesPerCell(out[i].index(), d.MaxEdges)
+				default:
+					out[i] = buildObjIn(d, w.split[i], out)
+					out[i].Index.Build()
+					for j := w.split[i]; j < len(d.Shapes); j++ {
+						out[i].addShape(j)
+					}
 				}
 			}
 		}
 	}
 	return out
+}
+
+// aliased reports whether object i is held as a shape by some index of the world (such an object
+// must not be mutated between bursts: the index would not know).
+func (w *c14World) aliased(i int) bool {
+	for _, d := range w.descs {
+		for _, a := range d.Alias {
+			if a == i {
+				return true
+			}
+		}
+	}
+	return false
 }
 
 // mutate applies the between-bursts mutation to a clone (the spawning goroutine does this after
@@ -110,6 +130,37 @@ func runC14(rc *runCtx) *RunResult {
 	w.descs = drawWorld(g, 3, maxV)
 	w.state = make([]int, len(w.descs))
 	w.split = make([]int, len(w.descs))
+	// some index shapes ARE other objects of the world (the same polygon queried directly and
+	// through an index that holds it)
+	for _, d := range w.descs {
+		if d.Kind != OIndex {
+			continue
+		}
+		d.Alias = make([]int, len(d.Shapes))
+		for si := range d.Alias {
+			d.Alias[si] = -1
+			if t.Chance(250) {
+				var cands []int
+				for j, e := range w.descs {
+					used := false
+					for _, a := range d.Alias[:si] {
+						if a == j {
+							used = true // one Go object is added to an index at most once
+						}
+					}
+					if (e.Kind == OLoop || e.Kind == OPolygon) && !used {
+						cands = append(cands, j)
+					}
+				}
+				if len(cands) > 0 {
+					j := cands[int(t.Uint(uint32(len(cands))))]
+					d.Alias[si] = j
+					d.Shapes[si] = w.descs[j].Shapes[0] // keep the description in step (probes, vertex counts)
+					rc.inc("probe_object_shared_with_index", 1)
+				}
+			}
+		}
+	}
 	for i, d := range w.descs {
 		w.state[i] = int(t.Uint(3))
 		if d.Kind == OIndex && w.state[i] == stStale {
@@ -157,12 +208,19 @@ func runC14(rc *runCtx) *RunResult {
 	for burst := 0; burst < nbursts; burst++ {
 		if burst > 0 {
 			obj := int(t.Uint(uint32(len(w.descs))))
+			for tries := 0; w.aliased(obj) && tries < len(w.descs); tries++ {
+				obj = (obj + 1) % len(w.descs)
+			}
+			if w.aliased(obj) {
+				break
+			}
 			var extra *gen.ShapeDesc
 			if w.descs[obj].Kind == OIndex {
 				e := g.AnyShapeDesc(60)
 				extra = &e
 				// keep the description in step so that probes and shape ids cover the new shape
 				w.descs[obj].Shapes = append(w.descs[obj].Shapes, e)
+				w.descs[obj].Alias = append(w.descs[obj].Alias, -1)
 			}
 			rc.log("between bursts: mutate obj%d", obj)
 			mp := func() (p string) {
